@@ -49,12 +49,16 @@ def strip_annotation(name):
     return _ANN.sub('', name)
 
 
-def to_trace(events, final=None, written=None):
+def to_trace(events, final=None, written=None, kinds=None):
+    """kinds: the generated file's own knowledge of each data line ('good' = as many CSV fields as the header): carried in
+    the parse events as wf = 1 / 0 (-1 = unknown) so that TraceStreaming judges the parser's verdict too."""
     out = []
     for e in events:
         if e['e'] == 'parse':
             pid = e.get('id')
-            out.append({'e': 'parse', 'nf': e['nf'], 'pos': int(pid) if isinstance(pid, str) and pid.isdigit() else -1})
+            pos = int(pid) if isinstance(pid, str) and pid.isdigit() else -1
+            wf = -1 if kinds is None or not (1 <= pos <= len(kinds)) else (1 if kinds[pos - 1] == 'good' else 0)
+            out.append({'e': 'parse', 'nf': e['nf'], 'pos': pos, 'wf': wf})
         elif e['e'] == 'batch':
             out.append({'e': 'batch', 'k': e['k'], 'ids': [int(i) if str(i).isdigit() else -1 for i in e['ids']], 'trip': [[t[0], t[1], t[2]] for t in (e['trip'] or [])]})
         elif e['e'] == 'checkpoint':
